@@ -479,7 +479,7 @@ func (in *Inst) scanLoop(lp *Loop) *modSet {
 				m.comps["g:"+l.Name] = true
 			case *ast.SelectorExpr:
 				for k := range in.e.W.ghosts {
-					if strings.HasSuffix(k, "."+l.Sel.Name) && strings.Count(k, ".") == 2 {
+					if strings.HasSuffix(k, "."+l.Sel.Name) && strings.Contains(k, ".") {
 						m.comps["gf:"+k] = true
 					}
 				}
@@ -794,6 +794,11 @@ func (in *Inst) scanContractMods(lp *Loop, con *Contract, c *ssa.CallCommon, cal
 	}
 	for _, mi := range con.Modifies {
 		switch mi.Kind {
+		case modType:
+			for _, name := range e.W.typeComps(e, con.Pkg, mi.Name) {
+				delete(m.fieldAt, name)
+				m.comps[name] = true
+			}
 		case modMem:
 			m.mem = true
 			*unknownMem = true
@@ -836,7 +841,7 @@ func (in *Inst) scanContractMods(lp *Loop, con *Contract, c *ssa.CallCommon, cal
 					}
 				}
 				for k := range e.W.ghosts {
-					if strings.HasSuffix(k, "."+sel.Sel.Name) && strings.Count(k, ".") == 2 {
+					if strings.HasSuffix(k, "."+sel.Sel.Name) && strings.Contains(k, ".") {
 						comp := "gf:" + k
 						g := e.W.ghosts[k]
 						e.regComp(comp, "(Array Int "+g.Sort+")")
